@@ -367,6 +367,8 @@ def extract_item(e, vac=False):
             if item.count(ins[k]) != 1:
                 raise ExtractError(f"lost anchor for annotation: `{ins[k]}` in {e['key']}")
             item = item.replace(ins[k], (ins["text"] + "\n" + ins[k]) if k == "before" else (ins[k] + "\n" + ins["text"] + "\n"))
+        if e.get("row_rule"):
+            item = row_rule(item)
         if e.get("msg_rule"):
             item = msg_rule(item, {"shaped": True, "at": "at", "at_bytes": "at_bytes"}.get(e.get("msg_rule"), False))
         if vac:
